@@ -4,6 +4,7 @@ import math
 
 from harness.common import mods, partition_class, sym_box, all_nodes, label, check_tree_invariant
 from sx.engine import Sym, HarnessError
+from sx import shims
 
 # default parameter sets (DESIGN §2): chosen to hit the interesting regimes
 DEFAULTS = {
@@ -88,10 +89,41 @@ class Observer:
         pass
 
 
+PREFIX_BOX = [-1.0, 3.0]
+
+
+def prefix_reward(cfg, p, t):
+    """Mode B: concrete reward of round t of the prefix - an objective-like function of the (concrete)
+    point plus deterministic dyadic pseudo-noise, so that the tree grows the way it does in real use"""
+    spec = cfg["prefix"]
+    x = float(p[0])
+    lo, hi = PREFIX_BOX
+    u = (x - lo) / (hi - lo)
+    peak = spec.get("peak", 0.3)
+    base = 1.0 - abs(u - peak)
+    noise = (((t * 37 + int(spec.get("seed", 0)) * 11) % 64) - 32) / 64.0 * spec.get("noise", 0.25)
+    r = base + noise
+    if spec.get("negative"):
+        r -= 2.0
+    return round(r * 1024) / 1024.0
+
+
+def initial_domain(ctx, cfg):
+    """symbolic box, or (Mode B) the concrete prefix box with the concrete RNG stream switched on"""
+    pre = cfg.get("prefix")
+    if pre:
+        shims.rng_concrete(pre.get("seed", 0) + 1000)
+        return [[PREFIX_BOX[0], PREFIX_BOX[1]] for _ in range(cfg["d"])]
+    return sym_box(ctx, cfg["d"])
+
+
 def drive(ctx, cfg, observers=(), dom=None, algo=None, T=None, last_point=True, times=None, rewards=None, stop_on_none=False):
     d = cfg["d"]
+    pre = cfg.get("prefix")
     if dom is None:
-        dom = sym_box(ctx, d)
+        dom = initial_domain(ctx, cfg)
+    elif pre and algo is None:
+        shims.rng_concrete(pre.get("seed", 0) + 1000)
     if algo is None:
         algo = build(ctx, cfg, dom)
     for ob in observers:
@@ -106,11 +138,18 @@ def drive(ctx, cfg, observers=(), dom=None, algo=None, T=None, last_point=True, 
             break
         for ob in observers:
             ob.after_pull(k, p)
-        r = rewards[k - 1] if rewards is not None else ctx.real("r%d" % k)
+        if pre and k == pre["P"] + 1:
+            shims.rng_fresh()
+        if pre and k <= pre["P"]:
+            r = prefix_reward(cfg, p, k)
+        else:
+            r = rewards[k - 1] if rewards is not None else ctx.real("r%d" % k)
         rs.append(r)
         ctx.call("receive_reward", algo.receive_reward, t, r)
         for ob in observers:
             ob.after_reward(k, r)
+    if pre:
+        shims.rng_fresh()
     lp = None
     if last_point:
         lp = ctx.call("get_last_point", algo.get_last_point)
